@@ -5,14 +5,23 @@ import NfcVerif.Lemmas.FnBridgeSnep
 
 Properties C06 (messages survive fragmentation; the size limits are enforced) and C07 (octets of the peer raise
 nothing but what the code handles).  The cuts are listed in `harness/fnspecs/snep.py` and in the doc comments of
-`Gen/FnSnep.lean`.  Three kinds of statements:
+`Gen/FnSnep.lean`.  Kinds of statements:
 
 * `<slice>_bridge`: a regenerated slice equals the arithmetic the models use (`Snep.hdr`, `Snep.request`,
   `beNat` of the length field, `List.drop`), `<slice>_peer`: it equals the `Py`-level transcription of the C07
   model (`PeerSnep.unpackL`, `unpackFromBxL`, `unpackBBL`, `packResponse`);
-* `process_mid`, `srv_idle_mid`, `cli_await_mid`: a transition of the C06 state machines equals the
-  composition of the regenerated slices (`Lemmas/FnBridgeSnep.lean`: `processMid`, `srvIdleMid`, `cliAwaitMid`);
-* `ho_send_octets_bridge`: `HandoverClient.send_octets` over an oracle socket offers exactly `Chan.chunks miu octets`.
+* `process_bridge`, `respond_bridge`, `srv_on_recv_bridge`, `cli_finish_bridge`, `cli_on_recv_bridge`, `cli_send_bridge`,
+  `cli_start_bridge`: the transition functions of the C06 state machines (`Snep.process`, `respond`, `srvOnRecv`,
+  `cliFinish`, `cliOnRecv`, `cliSend`, `cliStart`) equal the compositions `processGen`, .. of `Lemmas/FnBridgeSnep.lean`,
+  in which every condition, slice and protocol constant is a regenerated `expr=` cut pinned to its statement; hand
+  written remain the control skeleton and the offsets of the fragment loops.  Hypotheses: send MIU >= 1, the
+  application callbacks answer with a one-octet code / a message below 2^32 octets (`HandlersOk`), and - because the
+  models subtract the 6 header octets in `Nat` while Python subtracts in `int` - a reassembly buffer of at least 6
+  octets (an invariant of the models: the buffer starts as a first fragment that passed the `len < 6` check).
+  `*_mid` are stepping stones (header slices regenerated, conditions by hand);
+* `ho_send_octets_bridge`: `HandoverClient.send_octets` over an oracle socket offers exactly `Chan.chunks miu octets`;
+  `ho_srv_frags_bridge`: the fragments of `HandoverServer.serve`;
+* `gen_*`: statements of C06 / C07 restated for the regenerated code.
 -/
 namespace NfcVerif.FnBridge.Snep
 open NfcVerif NfcVerif.PyFn NfcVerif.Chan NfcVerif.Snep
@@ -439,6 +448,109 @@ theorem cli_start_bridge (miu acc : Nat) (hm : 0 < miu) (op : Op) (octets : Byte
     | error e => rfl
     | ok req => simp only [cli_send_bridge miu acc hm]
 
+
+/-! ## `send_request` as a whole (oracle socket) -/
+
+/-- a `for` loop whose body returns False at the first element that fails `p`, else goes on -/
+theorem forC_all {α} (p : α → Bool) :
+    ∀ (l : List α), PyFn.forC (ρ := Bool) l () (fun (_ : Unit) (o : α) =>
+        Except.ok (if (¬ (p o = true)) then (PyFn.Ctl.ret false) else (PyFn.Ctl.next ())))
+      = .ok (if l.all p then .inl () else .inr false) := by
+  intro l
+  induction l with
+  | nil => rfl
+  | cons a t ih =>
+    simp only [forC, List.all_cons]
+    by_cases hp : p a = true
+    · simp only [hp, not_true_eq_false, if_false, Bool.true_and]
+      exact ih
+    · have hp' : p a = false := by simpa using hp
+      simp [hp']
+
+/-- `range(miu, n, miu)` for `miu >= 1`, `n > miu`: the offsets `(i + 1) * miu` of the fragments behind the first -/
+theorem rangeStep_frags (miu n : Nat) (hm : 0 < miu) (hn : miu < n) :
+    PyFn.rangeStep (miu : Int) (n : Int) (miu : Int)
+      = .ok ((List.range (nfrag miu (n - miu))).map (fun i => (((i + 1) * miu : Nat) : Int))) := by
+  unfold PyFn.rangeStep nfrag
+  have h0 : ¬ ((miu : Int) = 0) := by omega
+  have h1 : (miu : Int) > 0 := by omega
+  rw [if_neg h0, if_pos h1]
+  have e : (((n : Int) - (miu : Int) + (miu : Int) - 1) / (miu : Int)).toNat = (n - miu + miu - 1) / miu := by
+    have : (n : Int) - (miu : Int) + (miu : Int) - 1 = ((n - miu + miu - 1 : Nat) : Int) := by omega
+    rw [this]
+    exact Int.toNat_natCast _ ▸ congrArg Int.toNat (Int.natCast_ediv _ _).symm
+  rw [e]
+  congr 1
+  apply List.map_congr_left
+  intro i _
+  rw [Nat.succ_mul]
+  omega
+
+
+/-- `send_request` over ANY socket oracle (`send`, `recv`) and send MIU `miu >= 1`: a request that fits is sent whole;
+else the first `miu` octets, then - only if that was accepted and the peer answered Continue - the fragments
+`Chan.chunks miu (request.drop miu)` in order until one is refused.  These are exactly the messages `Snep.cliSend` /
+`cliOnRecv (.awaitCont ..)` put on the wire (`Chan.fragments`) -/
+theorem send_request_bridge (req : Bytes) (miu : Nat) (hm : 0 < miu) (recv : Bytes) (send : Bytes → Bool) :
+    Gen.Fn.snep_send_request req (miu : Int) recv send
+      = .ok (if req.length ≤ miu then send req
+             else send (req.take miu) && decide (recv = contRsp) && (chunks miu (req.drop miu)).all send) := by
+  unfold Gen.Fn.snep_send_request
+  simp only [len_eq, Int.ofNat_le]
+  by_cases hfit : req.length ≤ miu
+  · rw [if_pos hfit, if_pos hfit]
+  · rw [if_neg hfit, if_neg hfit, slice_zero_nat]
+    by_cases hs : send (req.take miu) = true
+    · have : ¬ ¬ (send (req.take miu) = true) := by simp [hs]
+      rw [if_neg this]
+      by_cases hr : recv = contRsp
+      · have hr' : ¬ (recv ≠ [16, 128, 0, 0, 0, 0]) := by simp [hr, contRsp]
+        rw [if_neg hr', rangeStep_frags miu req.length hm (by omega)]
+        simp only [Py.bind_ok]
+        have hf := forC_all (fun (o : Int) => send (slice req o (o + (miu : Int))))
+          ((List.range (nfrag miu (req.length - miu))).map (fun i => (((i + 1) * miu : Nat) : Int)))
+        rw [hf]
+        simp only [Py.bind_ok]
+        have hall : ((List.range (nfrag miu (req.length - miu))).map (fun i => (((i + 1) * miu : Nat) : Int))).all
+              (fun (o : Int) => send (slice req o (o + (miu : Int))))
+            = (chunks miu (req.drop miu)).all send := by
+          rw [← fragsGen_eq (fun d a m => slice d a (a + m)) (fun d a m => rfl) req miu hm]
+          unfold fragsGen
+          rw [List.all_map, List.all_map]
+          rfl
+        rw [hall]
+        cases hc : (chunks miu (req.drop miu)).all send <;> simp [hs, hr]
+      · have hr' : recv ≠ [16, 128, 0, 0, 0, 0] := by simpa [contRsp] using hr
+        rw [if_pos hr']
+        simp [hs, hr]
+    · have : ¬ (send (req.take miu) = true) := hs
+      rw [if_pos this]
+      have hs' : send (req.take miu) = false := by simpa using hs
+      simp [hs']
+
+/-- every fragment is offered: against a socket that answers Continue and refuses exactly the frame `f`,
+`send_request` of a request longer than the MIU fails iff `f` is one of `Chan.fragments miu request` -/
+theorem send_request_offers_every_fragment (req f : Bytes) (miu : Nat) (hm : 0 < miu) (hl : miu < req.length) :
+    Gen.Fn.snep_send_request req (miu : Int) contRsp (fun g => decide (g ≠ f))
+      = .ok (decide (f ∉ fragments miu req)) := by
+  rw [send_request_bridge req miu hm, if_neg (by omega)]
+  congr 1
+  rw [Bool.eq_iff_iff]
+  simp only [fragments, Bool.and_eq_true, decide_eq_true_eq, List.all_eq_true, List.mem_cons, not_or, decide_true,
+    Bool.and_true, ne_eq]
+  constructor
+  · rintro ⟨h1, h2⟩
+    exact ⟨fun e => h1 e.symm, fun hf => h2 f hf rfl⟩
+  · rintro ⟨h1, h2⟩
+    exact ⟨fun e => h1 e.symm, fun g hg e => h2 (e ▸ hg)⟩
+
+example : Gen.Fn.snep_send_request [1, 2, 3, 4, 5] 2 [16, 128, 0, 0, 0, 0] (fun g => decide (g ≠ [5])) = .ok false := by
+  decide +kernel
+example : Gen.Fn.snep_send_request [1, 2, 3, 4, 5] 2 [16, 128, 0, 0, 0, 0] (fun _ => true) = .ok true := by
+  decide +kernel
+/-- a send MIU of 0 would be `ValueError` (`range()` step 0); LLCP guarantees MIU >= 128 -/
+example : Gen.Fn.snep_send_request [1, 2, 3, 4, 5] 0 [16, 128, 0, 0, 0, 0] (fun _ => true) = .error .value := by
+  decide +kernel
 
 /-! ## the same slices against the `Py`-level transcriptions of the C07 model (`Model/PeerSnep.lean`) -/
 
